@@ -149,6 +149,9 @@ static int add_to_cache(
   int result = yr_hash_table_add_raw_key(
       hash_table, &key, sizeof(key), ns, (void*) copy);
 
+  if (result != ERROR_SUCCESS)
+    yr_free(copy);
+
   YR_DEBUG_FPRINTF(
       2,
       stderr,
